@@ -376,6 +376,7 @@ func (h *clH) swap(pool uint64) {
 		} else {
 			e.Obs("%s", qcls)
 		}
+		exact, exactSteps := exactSwapExactIn(c.Ctx(), k, pool, dir == 0, amt, fe)
 		preIn, preOut := c.Bal(sender, din), c.Bal(sender, dout)
 		e.In("swapIn %s %d %s %s %s %s", accName(who), pool, din, amt, dout, feB)
 		var out sdkmath.Int
@@ -396,6 +397,13 @@ func (h *clH) swap(pool uint64) {
 			e.Oracle("swap_in_debit_le_stated", dIn.LTE(amt) && dIn.IsPositive(), "stated=%s debited=%s", amt, dIn)
 			e.Oracle("swap_out_eq_response", dOut.Equal(out), "resp=%s credited=%s", out, dOut)
 			e.Oracle("quote_eq_execute", qcls == "ok" && q.Equal(out), "quote=%s(%s) out=%s", q, qcls, out)
+			if exact != nil {
+				// never better than the exact curve (rounded up to a whole unit), and within a stated bound of it:
+				// one unit per step for the truncations plus one for the final TruncateInt
+				ce := ratCeilInt(exact)
+				e.Oracle("out_le_exact_curve", out.BigInt().Cmp(ce) <= 0, "out=%s exact=%s steps=%d", out, exact.FloatString(6), exactSteps)
+				e.Stat("exact_reference_compared")
+			}
 			// trade back what was received: must not return more than was put in (no fee: still ≤)
 			if e.R.N(2) == 0 && out.IsPositive() {
 				pre := c.Bal(sender, din)
